@@ -130,6 +130,11 @@ def _gen_shape(repo):
     facts['shrink_always_flags_victim'] = any(_norm(s) == 'worker.terminate_controlled()' and s in n.body
                                               for n in ast.walk(g) if isinstance(n, ast.For) for s in n.body)
 
+    g = find_func(tree, 'Pool._terminate_pool')
+    gt = ' ; '.join(_norm(s) for s in _walk_stmts(g))
+    facts['terminate_signals_every_live_worker'] = 'for p in pool: if p._is_alive(): p.terminate()' in gt
+    facts['terminate_joins_every_live_worker'] = 'for p in pool: if p.is_alive(): debug(' in gt and 'p.join()' in gt
+
     # ---- result handling
     g = find_func(tree, 'ApplyResult._set')
     w = g.body[0]
